@@ -18,6 +18,7 @@ SPEC = {
         "streams live in the communicator and are written only by the accounting sites (C02)."
         " Also: Err(TimedOut) is built only under the clock test or when all three ready flags are false; the cursor is persisted before any return; posix::poll returns a positive count at once, returns 0 only when the armed timeout was not clipped or the deadline passed, and re-arms only when nothing was ready and the timeout was clipped."
         " The deadline is computed with Instant::checked_add (an unrepresentable deadline = none): R04.3 reported D16 on the pinned tree."
+        " posix::poll's own deadline uses checked_add too (D16b)."
     ),
     "not_decided": "the numeric latency bound (\"t plus one I/O step\"), millisecond granularity, Instant overflow for absurd limits.",
     "trusted_base": ["rustc MIR", "poll(2): POLLERR/POLLHUP/POLLNVAL are reported even if not requested; timeout -1 blocks indefinitely",
@@ -203,15 +204,30 @@ def run(ctx):
         if okl:
             dterm = lambda x: True
             ge = bool_edges(pp, Tq, lambda c_: c_[0] == "call" and c_[1].endswith("PartialOrd::ge") and M.noref(M.strip(c_[2][0]))[0] == "call" and M.noref(M.strip(c_[2][0]))[1] == "std::time::Instant::now"
-                            and M.contains(c_[2][1], lambda u: u[0] == "call" and u[1] == "std::option::Option::<T>::unwrap"), True)
+                            and M.contains(c_[2][1], lambda u: (u[0] == "call" and u[1] == "std::option::Option::<T>::unwrap") or (u[0] == "downcast" and u[2] == "Some")), True)
             blocks = {b for b, s in ge if s not in loops[0]}
-            okl = bool(blocks) and not M.sccs(pp, removed=blocks)
+            # a deadline that could not be represented (None although a timeout was given) is no deadline: the cycle through that edge is the
+            # intended 'wait on' and is exempt from the cover
+            is_dl = lambda t_: M.contains(t_, lambda u: u[0] == "call" and u[1] in ("std::option::Option::<T>::and_then", "std::option::Option::<T>::map") and M.noref(u[2][0]) in (("param", 2, pp.local_name(2)), ("local", 2)))
+            none_dl = set(variant_edges(pp, Tq, is_dl, 0, [0, 1], "std::option::Option<"))
+            alle = {(b_, s_) for b_ in pp.live_blocks() for s_ in pp.succs(b_)} - none_dl
+            okl = bool(blocks) and not M.sccs(pp, removed=blocks, edges=alle)
             # deadline computed once, before the loop, from the original timeout
-            d0 = [bb for bb, t in pp.calls() if M.callee_str(t["f"]) == "std::option::Option::<T>::map" and bb not in loops[0] and Tq.operand(t["args"][1])[0] == "agg"]
+            d0 = [bb for bb, t in pp.calls() if M.callee_str(t["f"]) in ("std::option::Option::<T>::map", "std::option::Option::<T>::and_then") and bb not in loops[0] and Tq.operand(t["args"][1])[0] == "agg"]
             okl = okl and len(d0) >= 1
             # re-armed timeout = deadline - now
             st = [Tq.rvalue(r) for (bb, si, r) in pp.defs().get(2, []) if r["k"] not in ("partial", "call")]
             okl = okl and any(v[0] == "agg" and v[1][2] == "Some" and v[2][0][0] == "call" and "Sub" in v[2][0][1] for v in st)
+        # the deadline of the re-arm loop is computed without a panicking addition as well
+        safe = False
+        for bb_ in (d0 if len(loops) == 1 else []):
+            cl_ = Tq.operand(pp.blocks[bb_]["term"]["args"][1])
+            if cl_[0] == "agg" and cl_[1][0] == "closure" and cl_[1][1] in prog.fns:
+                r_ = M.Terms(prog.fns[cl_[1][1]]).local(0)
+                safe = r_[0] == "call" and r_[1] == "std::time::Instant::checked_add"
+        ctx.ob("R04.4", "poll-deadline-addition-cannot-overflow", safe, pp.loc(0),
+               "posix::poll computes its own deadline from the remaining time on a later clock reading: `Instant::now() + timeout` there can still overflow "
+               "for a limit whose deadline was only just representable; it must be checked_add (None = wait on)")
         ctx.ob("R04.4", "rearm-loop-covered-by-deadline", okl, pp.loc(0), "the > i32::MAX ms re-arm loop re-checks the original deadline every iteration and re-arms with deadline - now")
         # what leaves the loop and what re-arms: a positive count is returned at once; a zero count is returned only when the whole requested
         # timeout was armed (no overflow) or the deadline has passed; the loop re-arms only when nothing was ready *and* the timeout was clipped
